@@ -154,6 +154,7 @@ type Exec struct {
 	discovering int
 	mergedDepth int
 	curLoop     *loopCtx
+	entryState  *State
 	relyPtr, guarPtr, relyVal, guarVal *Term
 	tailrec     map[string]bool
 	nAtomic     int
